@@ -99,6 +99,9 @@ func buildChunk(r *vm.Rand, secs int, maxDistinct int) (*level.Chunk, *chunkDesc
 			tree.Comp = append(tree.Comp, refnbt.Entry{Name: "Items", V: &refnbt.Value{Tag: refnbt.List, Elem: refnbt.Compound}})
 		}
 		be.Data = nbt.RawMessage{Type: nbt.TagCompound, Data: refnbt.EncodePayload(tree)}
+		if r.Intn(4) == 0 {
+			be.Data = nbt.RawMessage{} // a block entity without data (a single TAG_End on the wire)
+		}
 		c.BlockEntity = append(c.BlockEntity, be)
 	}
 	d.ops = append(d.ops, fmt.Sprintf("%d block entities, height maps with %d-bit entries", nbe, hbits))
@@ -182,6 +185,10 @@ func checkNetwork(c *vm.Ctx, r *vm.Rand, ch *level.Chunk, d *chunkDesc) {
 			}
 		}
 		dst.BlockEntity = make([]level.BlockEntity, 5)
+		for i := range dst.BlockEntity { // entities the receiver held before, with data of their own
+			dst.BlockEntity[i] = level.BlockEntity{XZ: int8(i), Y: int16(100 + i), Type: 3,
+				Data: nbt.RawMessage{Type: nbt.TagCompound, Data: refnbt.EncodePayload(&refnbt.Value{Tag: refnbt.Compound, Comp: []refnbt.Entry{{Name: "stale", V: refnbt.In(int32(i))}}})}}
+		}
 		c.Cover("net.into-used-chunk")
 	} else {
 		c.Cover("net.into-empty-chunk")
